@@ -388,6 +388,58 @@ def recorderX : XLeafFn := fun a args kw =>
 /-- `lambda a, *args, **kw: a` -/
 def identX : XLeafFn := fun a _ _ => .ok a
 
+
+/-! ### paths through the looped containers (the vocabulary of the shape / leaves theorems) -/
+
+/-- the child of a container that `loops(types = T)` loops over -/
+def XVal.childT (T : LoopTypes) : XVal → Step → Option XVal
+  | .list xs, .idx i => if T.list then xs[i]? else Option.none
+  | .tuple xs, .idx i => if T.tuple then xs[i]? else Option.none
+  | .dict cls kvs, .key k => if T.dicts.contains cls then kvs.lookup k else Option.none
+  | _, _ => Option.none
+
+def XVal.atT (T : LoopTypes) (v : XVal) : Path → Option XVal
+  | [] => some v
+  | s :: p => match v.childT T s with
+    | some c => c.atT T p
+    | Option.none => Option.none
+
+/-- what one level of `_wrapped` does to a companion when it descends into child `s` of `v` -/
+def selStepX (v : XVal) (s : Step) (c : XVal) : XVal :=
+  match v, s with
+  | .list xs, .idx i => itemByIX i xs.length c
+  | .tuple xs, .idx i => itemByIX i xs.length c
+  | .dict _ kvs, .key k => itemByKeyX k (sortStr (xkeysOf kvs)) Option.none c
+  | _, _ => c
+
+def selectX (T : LoopTypes) (v : XVal) : Path → XVal → XVal
+  | [], c => c
+  | s :: p, c => match v.childT T s with
+    | some v' => selectX T v' p (selStepX v s c)
+    | Option.none => c
+
+/-- what the decorator does NOT loop over at the position it meets it: cells, opaque objects, Series and 1-d arrays
+below the top, and every container whose type is not in `T` -/
+def XVal.leafFor (T : LoopTypes) : XVal → Bool
+  | .cell _ => true
+  | .obj _ => true
+  | .arr1 _ => true
+  | .ser _ _ => true
+  | .list _ => !T.list
+  | .tuple _ => !T.tuple
+  | .dict cls _ => !T.dicts.contains cls
+  | .arr2 _ _ => !T.array
+  | .frame _ _ _ => !T.frame
+
+/-- `axis` is consumed by the outermost level: below it the keywords are without `axis` -/
+def kwAt (p : Path) (kw : XKW) : XKW :=
+  match p with
+  | [] => kw
+  | _ :: _ => dropAxisX kw
+
+/-- the columns of a table as Series / 1-d arrays -/
+def frameCol (idx : List String) (rows : List (List Cell)) (j : Nat) : XVal := .ser idx (colOf rows j)
+
 /-! ### the plain fragment -/
 
 mutual
